@@ -2,10 +2,10 @@
    Model: Model/Wire.v (+ Base/Json.v) after pygls/protocol/json_rpc.py (_send_data in its target
    state: serialisation try / write try, _send_response, notify, send_request) and pygls/io_.py
    (StdoutWriter.write).  Reference: Spec/WireSpec.v (strict base-protocol decoder, JSON reader,
-   interleavings).  No open finding for this property at this commit.
+   interleavings).  Open finding: F-C03-streamwriter-from-pool-thread (below; runtime only).
    Assumed, not proved (DESIGN section 2): one write call on the transport is atomic. *)
 From Coq Require Import ZArith NArith List Bool Permutation.
-From Pygls Require Import Base.Unicode Base.Json Model.Wire Spec.WireSpec
+From Pygls Require Import Base.Unicode Base.PyStr Base.Json Model.Wire Spec.WireSpec
   Proofs.JsonProofs Proofs.WireProofs.
 Open Scope N_scope.
 
@@ -40,25 +40,40 @@ Definition C03_statement : Prop :=
   (forall c s, framed c = true -> writer c = WStdout ->
      send_ops c s = flat_map (fun j => [TWrite (frame (dumps j)); TFlush]) (sent_trees s) /\
      (sent_trees s <> [] -> forall before,
-        transport (before ++ send_ops c s) = (stream (before ++ send_ops c s), []))).
+        transport (before ++ send_ops c s) = (stream (before ++ send_ops c s), []))) /\
+  (* (v) holds in EVERY calling context - directly, inside a synchronous handler under the read loop,
+     in a coroutine handler after an await, on a pool thread while the loop thread is inside another
+     handler, for the loop's own reply: the statement forbids context-dependent buffering, and in
+     the model the operations of a send simply do not depend on the context.  A send ends with the
+     write of its frame and a flush, and after that flush, whatever else any thread did to the
+     transport before it, the buffer is empty and the frame is on the pipe.  (The correspondence run
+     observes the sends in these contexts under the real run_async / run.) *)
+  (forall x y c s, send_ops_in x c s = send_ops_in y c s) /\
+  (forall x c s, framed c = true -> writer c = WStdout -> sent_trees s <> [] ->
+     exists pre d, send_ops_in x c s = pre ++ [TWrite d; TFlush] /\
+       forall hist, In (TWrite d) hist ->
+         snd (transport (hist ++ [TFlush])) = [] /\
+         exists h1 h2, fst (transport (hist ++ [TFlush])) = stream h1 ++ d ++ stream h2).
 
 Theorem C03 : C03_statement.
 Proof.
-  unfold C03_statement. repeat split.
-  - apply dumps_ascii.
-  - apply header_len_is_byte_len.
-  - apply send_data_tree. assumption.
-  - rewrite (ascii_utf8 (dumps j)) by apply dumps_ascii. symmetry. apply ascii_utf8, frame_ascii.
-  - rewrite (ascii_utf8 (dumps j)) by apply dumps_ascii.
-    pose proof (spec_decode_frames [dumps j]) as E. cbn [map concat] in E. rewrite app_nil_r in E. exact E.
+  unfold C03_statement.
+  split; [|split; [|split; [|split; [|split; [|split; [|split; [|split; [|split]]]]]]]].
+  - intros c j H. split; [apply dumps_ascii|]. split; [apply header_len_is_byte_len|].
+    split; [apply send_data_tree; exact H|].
+    rewrite (ascii_utf8 (dumps j)) by apply dumps_ascii. split.
+    + symmetry. apply ascii_utf8, frame_ascii.
+    + pose proof (spec_decode_frames [dumps j]) as E. cbn [map concat] in E.
+      rewrite app_nil_r in E. exact E.
   - intros c s. apply do_send_frames.
   - apply spec_decode_frames.
   - intros c ss. apply sender_stream_decodes.
   - intros s H. apply andb_true_iff in H. destruct H. apply escape_roundtrip; assumption.
   - apply loads_dumps.
   - intros c sss ops. apply merge_of_atomic_writes.
-  - apply flush_last; assumption.
-  - apply flush_last; assumption.
+  - intros c s H Hw. apply flush_last; assumption.
+  - intros x y c s. apply send_ops_context_free.
+  - intros x c s. apply flushed_when_send_returns.
 Qed.
 Print Assumptions C03.
 
@@ -75,6 +90,22 @@ Print Assumptions C03_reference_agrees.
 Theorem C03_schedules_covered : forall (A : Type) sched (qs : list (list A)),
   interleave qs (run_schedule sched qs).
 Proof. intros A sched qs. apply run_schedule_interleave. Qed.
+
+(* FINDING F-C03-streamwriter-from-pool-thread (runtime, observed by the TCP stress run, a race).
+   Clause (iv) is about ATOMIC transport operations; that is an assumption on the transport
+   (DESIGN section 2), true for BufferedWriter.write, not for an asyncio StreamWriter written to from a
+   pool thread.  The assumption is necessary: if one write may reach the transport as two operations
+   (what a partial socket send followed by buffering the remainder amounts to), two senders of whole
+   frames can produce a stream the strict decoder rejects. *)
+Definition split_write (k : N) (d : list N) : list top := [TWrite (take k d); TWrite (drop k d)].
+Theorem C03_refuted_nonatomic_write :
+  exists ops, interleave [split_write 30 (frame (dumps (JInt 1))); split_write 30 (frame (dumps (JInt 2)))] ops /\
+    spec_decode (stream ops) = None.
+Proof.
+  exists (run_schedule [0; 1; 0; 1]%nat
+            [split_write 30 (frame (dumps (JInt 1))); split_write 30 (frame (dumps (JInt 2)))]).
+  split; [apply run_schedule_interleave|vm_compute; reflexivity].
+Qed.
 
 (* The hypothesis of (iii) is necessary, and is about JSON, not about pygls: a high surrogate
    followed by a low one IS the astral character in \u notation. *)
